@@ -34,10 +34,12 @@ def _roles(**kw):
     opaque = kw.pop("opaque_index", ())
     cfuncs = kw.pop("coord_funcs", ())
     single = kw.pop("singleton_index", ())
+    single_seq = kw.pop("singleton_seq", ())
     citer = kw.pop("coord_iterables", ())
     r = Roles(**kw)
     r.opaque_index |= set(opaque)
     r.singleton_index |= set(single)
+    r.singleton_seq |= set(single_seq)
     r.coord_funcs |= set(cfuncs)
     r.coord_iterables |= set(citer)
     r.coord_src |= set(csrc)
@@ -119,14 +121,15 @@ FLAG_FUNCS = [
                                                                 length=["diff_to_nearest_position"])),
     (IG, "IntronGraph.cluster_terminal_positions", "read_end", dict(extra_dual=GRAPH_DUAL, coord_iterables=["position_dict"],
                                                                    other=["position_dict"], coord=["pos"])),
-    (GMC, "GraphBasedModelConstructor.is_internal_monoexonic_read", "forward", dict(seq=["corrected_exons"], interval=["read_coordinates", "e"])),
+    (GMC, "GraphBasedModelConstructor.is_internal_monoexonic_read", "forward",
+     dict(seq=["corrected_exons"], interval=["read_coordinates", "e"], singleton_seq=["corrected_exons"])),   # the read is mono-exonic here
     (GMC, "GraphBasedModelConstructor.generate_monoexon_from_clustered", "forward",
      dict(seq=["corrected_exons"], coord=["five_prime_pos", "three_prime_pos"], interval=["coordinates"])),
 ]
 
 # accepted differences: (pair key, side, substring of the fact) -> reason
 ALLOWED = [
-    ("GraphBasedModelConstructor.is_internal_monoexonic_read", None, "read_coordinates :=",
+    ("GraphBasedModelConstructor.is_internal_monoexonic_read", None, ":= $1.corrected_exons[",
      "the read is mono-exonic here (single corrected exon), so corrected_exons[0] and corrected_exons[-1] are the same element"),
 ]
 
@@ -247,8 +250,8 @@ def run(prog, ctx):
             body_t = _specialise(f.body, flag, True)
             body_f = _specialise(f.body, flag, False)
             from collections import Counter
-            rm = reflect.Reflector(roles, True, f)
-            rp = reflect.Reflector(roles, False, f)
+            rm = reflect.Reflector(roles, True, f, scope=body_t)
+            rp = reflect.Reflector(roles, False, f, scope=body_f)
             rm.inl, rp.inl = {}, {}
             fl, fr = [], []
             rm._block(body_t, (), fl)
@@ -295,8 +298,8 @@ def run(prog, ctx):
                 n_lit += 1
                 roles = _roles(seq=[bname])
                 try:
-                    rm = reflect.Reflector(roles, True, f)
-                    rp = reflect.Reflector(roles, False, f)
+                    rm = reflect.Reflector(roles, True, f, scope=[])
+                    rp = reflect.Reflector(roles, False, f, scope=[])
                     ma = rm.pos_coord(a)
                     pb = rp.pos_coord(b)
                 except reflect.Unsupported:
